@@ -222,8 +222,10 @@ OuterLoop:
 
 			url.Init()
 			rl.bindPolicyToURL(url)
+			// Share the limiter with the previous generation instead of moving
+			// it: requests that still hold the previous generation keep using
+			// it (and keep being counted) until they complete.
 			url.rl = prev.rl
-			prev.rl = nil
 			rl.setStateListenerForURL(url)
 			continue OuterLoop
 		}
